@@ -117,6 +117,145 @@ def gen_attr():
     return out
 
 
+class KeyTr:
+    """TagAttributes._etree_key: statement forms accepted are exactly
+
+        a, b = <pair argument>
+        x = self._node._etree_obj.nsmap.get(None)      (becomes the parameter nsmap_default : option str)
+        if <test>: <block> [elif/else ...]              (every block ends in `return <str expr>`)
+
+    expressions: names, f-strings over str / optional str, `<str> in / not in self._etree_attrib`
+    (membership among the keys of the parameter etree_attrib), == / != between str and optional str,
+    and / or / not with python truthiness of str and optional str.  Anything else: Unsupported."""
+
+    def __init__(self, env):
+        self.env = dict(env)
+
+    @staticmethod
+    def _is_attrib(e):
+        return (isinstance(e, ast.Attribute) and e.attr == "_etree_attrib"
+                and isinstance(e.value, ast.Name) and e.value.id == "self")
+
+    @staticmethod
+    def _is_default_ns(e):
+        # self._node._etree_obj.nsmap.get(None)
+        if not (isinstance(e, ast.Call) and not e.keywords and len(e.args) == 1
+                and isinstance(e.args[0], ast.Constant) and e.args[0].value is None):
+            return False
+        f = e.func
+        chain = []
+        while isinstance(f, ast.Attribute):
+            chain.append(f.attr)
+            f = f.value
+        return isinstance(f, ast.Name) and f.id == "self" and chain == ["get", "nsmap", "_etree_obj", "_node"]
+
+    def expr(self, e):
+        if isinstance(e, ast.Name):
+            if e.id not in self.env:
+                raise Unsupported("unknown name " + e.id)
+            return e.id, self.env[e.id]
+        if isinstance(e, ast.JoinedStr):
+            parts = []
+            for v in e.values:
+                if isinstance(v, ast.Constant) and isinstance(v.value, str):
+                    parts.append(py2coq.lit(v.value))
+                elif isinstance(v, ast.FormattedValue) and v.conversion == -1 and v.format_spec is None:
+                    g, t = self.expr(v.value)
+                    if t == "str":
+                        parts.append(g)
+                    elif t == "optstr":
+                        parts.append("(py_str_optstr %s)" % g)
+                    else:
+                        raise Unsupported("f-string value of type " + t)
+                else:
+                    raise Unsupported(ast.dump(v)[:200])
+            return "(" + " ++ ".join(parts) + ")", "str"
+        if isinstance(e, ast.Compare) and len(e.ops) == 1:
+            op, left, right = e.ops[0], e.left, e.comparators[0]
+            if isinstance(op, (ast.In, ast.NotIn)) and self._is_attrib(right):
+                g, t = self.expr(left)
+                if t != "str":
+                    raise Unsupported("membership of a non-str in _etree_attrib")
+                r = "(py_in_keys %s etree_attrib)" % g
+                return (r if isinstance(op, ast.In) else "(negb %s)" % r), "bool"
+            if isinstance(op, (ast.Eq, ast.NotEq)):
+                (a, ta), (b, tb) = self.expr(left), self.expr(right)
+                opt = lambda g, t: g if t == "optstr" else "(Some %s)" % g  # noqa: E731
+                if {ta, tb} <= {"str", "optstr"}:
+                    r = "(str_eqb %s %s)" % (a, b) if ta == tb == "str" else "(optstr_eqb %s %s)" % (opt(a, ta), opt(b, tb))
+                    return (r if isinstance(op, ast.Eq) else "(negb %s)" % r), "bool"
+            raise Unsupported("comparison " + ast.dump(e)[:200])
+        if isinstance(e, ast.BoolOp):
+            op = " && " if isinstance(e.op, ast.And) else " || "
+            return "(" + op.join(self.truth(v) for v in e.values) + ")%bool", "bool"
+        if isinstance(e, ast.UnaryOp) and isinstance(e.op, ast.Not):
+            return "(negb %s)" % self.truth(e.operand), "bool"
+        raise Unsupported(ast.dump(e)[:300])
+
+    def truth(self, e):
+        g, t = self.expr(e)
+        if t == "bool":
+            return g
+        if t == "str":
+            return "(py_bool_str %s)" % g
+        if t == "optstr":
+            return "(py_bool_optstr %s)" % g
+        raise Unsupported("truth value of " + t)
+
+    def block(self, stmts):
+        stmts = [s for s in stmts if not _is_doc(s)]
+        if not stmts:
+            raise Unsupported("block falls off the end without return")
+        s, rest = stmts[0], stmts[1:]
+        if isinstance(s, ast.Return):
+            if rest or s.value is None:
+                raise Unsupported("return form")
+            g, t = self.expr(s.value)
+            if t != "str":
+                raise Unsupported("returned value of type " + t)
+            return g
+        if isinstance(s, ast.If):
+            if rest:
+                raise Unsupported("statements after if/else")
+            if not s.orelse:
+                raise Unsupported("if without else")
+            test = self.truth(s.test)
+            saved = dict(self.env)
+            a = self.block(s.body)
+            self.env = dict(saved)
+            b = self.block(s.orelse)
+            self.env = saved
+            return "if %s\n  then %s\n  else %s" % (test, a, b)
+        if isinstance(s, ast.Assign) and len(s.targets) == 1:
+            tgt, v = s.targets[0], s.value
+            if isinstance(tgt, ast.Tuple) and len(tgt.elts) == 2 and all(isinstance(x, ast.Name) for x in tgt.elts) \
+                    and isinstance(v, ast.Name) and self.env.get(v.id) == "pair" and tgt.elts[0].id != tgt.elts[1].id:
+                a, b = tgt.elts[0].id, tgt.elts[1].id
+                self.env[a] = self.env[b] = "str"
+                return "let '(%s, %s) := %s in\n  %s" % (a, b, v.id, self.block(rest))
+            if isinstance(tgt, ast.Name) and self._is_default_ns(v):
+                self.env[tgt.id] = "optstr"
+                return "let %s := nsmap_default in\n  %s" % (tgt.id, self.block(rest))
+        raise Unsupported(ast.dump(s)[:300])
+
+
+def gen_etree_key():
+    with open(os.path.join(REPO, "_delb", "nodes.py")) as f:
+        src = f.read()
+    fn = py2coq.find(ast.parse(src), "TagAttributes._etree_key")
+    if not isinstance(fn, ast.FunctionDef) or fn.decorator_list:
+        raise Unsupported("TagAttributes._etree_key is not a plain method")
+    a = fn.args
+    if a.vararg or a.kwarg or a.kwonlyargs or a.posonlyargs or a.defaults or [x.arg for x in a.args] != ["self", "item"]:
+        raise Unsupported("signature of TagAttributes._etree_key")
+    body = KeyTr({"item": "pair"}).block(fn.body)
+    return ("From Delb.Base Require Import PyStr PySplit.\n"
+            "(* nsmap_default = self._node._etree_obj.nsmap.get(None); etree_attrib = self._etree_attrib (its keys are used) *)\n"
+            "Definition etree_key_gen (nsmap_default : option str) (etree_attrib : list (str * str)) (item : str * str) : str :=\n"
+            "  %s.\n" % body)
+
+
 GENERATORS = {
     "GenAttr.v": ("_delb/names.py deconstruct_clark_notation", gen_attr),
+    "GenAttrKey.v": ("_delb/nodes.py TagAttributes._etree_key", gen_etree_key),
 }
